@@ -120,11 +120,17 @@ class PyEval(MiniEval):
         for st in getattr(self.module, "tree", ast.Module(body=[], type_ignores=[])).body:
             tgt = st.targets[0] if isinstance(st, ast.Assign) and len(st.targets) == 1 else (st.target if isinstance(st, ast.AnnAssign) else None)
             val = getattr(st, "value", None)
-            if isinstance(tgt, ast.Name) and tgt.id == ident and isinstance(val, (ast.Dict, ast.List, ast.Set, ast.Tuple, ast.Constant)):
+            if isinstance(tgt, ast.Name) and tgt.id == ident and val is not None and (
+                    isinstance(val, (ast.Dict, ast.List, ast.Set, ast.Tuple, ast.Constant))
+                    or not any(isinstance(x, (ast.Call, ast.Lambda, ast.Await, ast.Yield, ast.YieldFrom)) for x in ast.walk(val))):
+                # a literal display, or a call-free expression over constants (`_BITS = 1 << NumericType.INT_WIDTH`)
                 try:
-                    mc[ident] = self.ev(val, {})
+                    got = self.ev(val, {})
                 except Unsupported:
                     break
+                if isinstance(got, Opaque) or (isinstance(got, (list, tuple, set, dict)) and any(isinstance(x, Opaque) for x in got)):
+                    break
+                mc[ident] = got
                 return mc[ident]
         return Opaque(ident)
 
@@ -663,6 +669,38 @@ class PyEval(MiniEval):
         raise Unsupported(f"pattern {type(p).__name__}")
 
     # ---- calls
+    def side_effect_stmt(self, st: ast.stmt, env: dict) -> None:
+        """An expression statement `f(...)`.  If `f` is code the interpreter follows -- a hook, a local function, a repository
+        function, a method of a token's class -- then "cannot evaluate" is NOT "returns normally": the callee may be the very
+        check whose verdict is being decided (`_int_bounds_check(n, ...)`), so Unsupported propagates (-> UNDECIDED).
+        Only calls into code outside the repository (logging, builder objects modelled as opaque) are skipped."""
+        v = getattr(st, "value", None)
+        if not isinstance(v, ast.Call):
+            return
+        followed = False
+        fn = ast.unparse(v.func)
+        if fn in env and callable(env[fn]):
+            followed = True
+        elif isinstance(v.func, ast.Name):
+            f = self.idx.funcs.get(self.idx.resolve_name(self.module, v.func.id))
+            followed = f is not None and f.cls is None
+        elif isinstance(v.func, ast.Attribute):
+            try:
+                recv = self.ev(v.func.value, env)
+            except Unsupported:
+                recv = None
+            if isinstance(recv, Tok):
+                followed = v.func.attr in recv.attrs.get("__methods__", {}) or any(c.find_method(v.func.attr) is not None for c in recv.attrs.get("__classes__", ()))
+            elif isinstance(recv, (dict, list, set)):
+                followed = True  # mutation of a concrete container
+        if followed:
+            self.call(v, env)
+            return
+        try:
+            self.call(v, env)
+        except Unsupported:
+            pass
+
     def call(self, node: ast.Call, env: dict) -> Any:
         fn = ast.unparse(node.func)
         if fn in env and getattr(env[fn], "__gsa_lambda__", False):
